@@ -170,6 +170,7 @@ def layer (name : String) : Option (Obj View → Obj View) :=
   | "am" => some (fun I => awaitMethodO (nativeAwaitO I))
   | "ami" => some (fun I => awaitMethodIterO (nativeAwaitO I))
   | "mon" => some monitorAawaitO
+  | "masend" => some (fun I => monitorAsendO I 0 0)
   | "bmon" => some boundMonitorO
   | "cs_aclose" => some (fun I => coroStartAcloseO I (CS.new I))
   | _ =>
